@@ -344,7 +344,7 @@ func TestVerifC01L1(t *testing.T) {
 	run.judge("C01")
 	faults := res.GetObs("faults_cut_up") + res.GetObs("faults_cut_down") + res.GetObs("faults_stall") + res.GetObs("faults_refuse")
 	res.Obs("faults_total", faults)
-	res.RequireObs("faults_total", int64(len(plans)*nFaults/8))
+	res.RequireObs("faults_total", int64(len(plans)*nFaults/14))
 	res.RequireObs("sessions_completed", int64(len(plans)*9/10))
 	res.RequireObs("faults_cut_up", 1)
 	res.RequireObs("faults_cut_down", 1)
